@@ -40,3 +40,46 @@ def doc_population(name):
 VARIABLE_SIZE = {'BeeColonyOptimization', 'ForestOptimizationAlgorithm', 'ImperialistCompetitiveOptimization'}
 # optimizers that consult Agent.fitness / task direction in their update rule (C12 statement: Ant Lion)
 FITNESS_READERS = {'AntLionOptimization'}
+
+
+BASE_FIELDS = ('population_size', 'fitness_error', 'max_cycles', 'early_stopping')
+
+
+def _neighbours(v):
+    if isinstance(v, bool):
+        return [not v]
+    if isinstance(v, int):
+        return [v - 1, v + 1]
+    if isinstance(v, float):
+        return [v / 2, v * 1.5]
+    if isinstance(v, (list, tuple)) and v and all(isinstance(e, (int, float)) and not isinstance(e, bool) for e in v):
+        out = []
+        for i, e in enumerate(v):
+            for n in _neighbours(e):
+                w = list(v)
+                w[i] = n
+                out.append(w)
+        if len(v) == 2:
+            out.append([v[1], v[0]])
+        return out
+    return []
+
+
+def param_deviations(name):
+    """one-parameter deviations of every algorithm parameter to its neighbouring values, kept only if the config
+    validator accepts them -> list of (field, value)"""
+    cls = config_class(name)
+    base = base_params(name)
+    out = []
+    for f, v in base.items():
+        if f in BASE_FIELDS:
+            continue
+        for n in _neighbours(v):
+            d = dict(base)
+            d[f] = n
+            try:
+                cls(**d)
+            except Exception:
+                continue
+            out.append((f, n))
+    return out
